@@ -176,6 +176,11 @@ func (m *roaManager) HandleROAEvent(ev *roaEvent) {
 		client.state.RpkiMessages = oc.RpkiMessages{}
 		client.conn = nil
 		go client.tryConnect()
+		if client.timer != nil {
+			// a timer armed by an earlier disconnect would otherwise keep running
+			// unreferenced and purge the table after a successful reload
+			client.timer.Stop()
+		}
 		client.timer = time.AfterFunc(time.Duration(client.lifetime)*time.Second, client.lifetimeout)
 		client.oldSessionID = client.sessionID
 	case roaConnected:
